@@ -774,7 +774,25 @@ class Interp:
     def follow_call(self, cs, args):
         """interpret a workspace callee selected by self.follow (same call model, nested trace merged into this one)"""
         prog = getattr(self.body, "prog", None)
-        if prog is None or not self.follow(cs):
+        if prog is None:
+            return None
+        if cs.fn == "core::future::future::Future::poll" and args:
+            st = args[0].deref()
+            if st.k == "adt" and isinstance(st.extra, tuple) and st.extra[0] == "coroutine" and st.extra[1] in prog.bodies and st.extra[1] != "state":
+                ab = prog.async_body(st.extra[1])
+                if ab is None:
+                    return None
+                sub = Interp(ab, self.call_model, self.max_steps)
+                sub.depth = self.depth + 1
+                sub.follow = self.follow
+                r = sub.run({1: Val("adt", list(st.v), ("coroutine", "state"))})
+                if self._res is not None:
+                    self._res.calls.extend(r.calls)
+                if r.kind != "return" or r.ret is None:
+                    return Val("unknown", "ret:%s(%s)" % (st.extra[1], r.kind))
+                return Val("adt", [r.ret], ("core::task::poll::Poll", "Ready"))
+            return None
+        if not self.follow(cs):
             return None
         key = None
         for nm in (cs.term.get("res"), cs.term.get("fn")):
@@ -787,8 +805,11 @@ class Interp:
         if key is None:
             return None
         cb = prog.body(key)
-        if cb is None or cb.kind not in ("Fn", "AssocFn") or cb.raw.get("is_async"):
+        if cb is None or cb.kind not in ("Fn", "AssocFn"):
             return None
+        if cb.raw.get("is_async"):
+            # an `async fn`: the call only builds the future (its captured parameters); the body runs when it is polled
+            return Val("adt", list(args), ("coroutine", key))
         sub = Interp(cb, self.call_model, self.max_steps)
         sub.depth = self.depth + 1
         sub.follow = self.follow
